@@ -1,6 +1,7 @@
 (* C09 - the token stream is the one of the specification's lexical grammar.
    Theorems only; proofs in Lang/LexerProps.v and Gen/TableChecks.v. *)
-From GV Require Import Base.Prelude Lang.Lexer Lang.LexerProps Gen.Tables Gen.TableChecks.
+From GV Require Import Base.Prelude Lang.Lexer Lang.LexerProps Gen.Tables Gen.TableChecks Lang.Ast Lang.Parser
+  Lang.ParserProps Properties.ParserThms.
 
 (* Every source either is rejected with a position or yields tokens whose spans tile the
    source: gap, lexeme, gap, ..., EOF; gaps contain ignored characters only; lexemes are
@@ -38,6 +39,29 @@ Proof.
         (conj lex_line_terminators_is_spec lex_punct_is_spec))))))))).
 Qed.
 Print Assumptions C09_tables_are_spec.
+
+(* The parser consumes only (kind, value) of the significant tokens: any two token lists with the
+   same (kind, value) sequence - whatever ignored material, positions, lines - give the same tree
+   and token count, or are both rejected. *)
+Theorem C09_parse_independent_of_layout : forall e o ts1 ts2,
+  map sig ts1 = map sig ts2 ->
+  (forall d c, parse_entry e o ts1 = Ok (d, c) <-> parse_entry e o ts2 = Ok (d, c)) /\
+  ((exists p, parse_entry e o ts1 = SyntaxErr p) <-> (exists p, parse_entry e o ts2 = SyntaxErr p)).
+Proof. exact parser_layout_independent. Qed.
+Print Assumptions C09_parse_independent_of_layout.
+
+(* a token limit of n accepts exactly the sources the unlimited parser accepts with at most n tokens *)
+Theorem C09_token_limit : forall e o n s d c,
+  parse_text e (with_max o (Some n)) s = Ok (d, c) <->
+  parse_text e (with_max o None) s = Ok (d, c) /\ (c <= n)%nat.
+Proof. exact parser_text_token_limit_iff. Qed.
+Print Assumptions C09_token_limit.
+
+(* sources that do not lex are rejected by every entry point *)
+Theorem C09_unlexable_rejected : forall e o s q, e <> ECoordinate -> lex s = SyntaxErr q ->
+  exists p, parse_text e o s = SyntaxErr p.
+Proof. exact parser_unlexable_rejected. Qed.
+Print Assumptions C09_unlexable_rejected.
 
 (* non-vacuity: a source with comment, string escape, number and CR LF *)
 Example C09_example :
